@@ -32,4 +32,38 @@ PROPS = {
         },
         'thorough': {},
     },
+    'C07': {
+        'level': 'other',
+        'explanation': 'Decided: scalar/field-element/seed/length-prefixed-vector codecs (round trip, canonicity, exact length, rejection of non-canonical forms) and the structural codec contract of Prio3 and Poplar1 messages at one instance each (bounded, listed); encoded_len of Poplar1AggregationParam for every level. Not decided here: messages containing Field255 elements (fiat-crypto is intractable for CBMC), IdpfPublicShare bit packing (bitvec), ping-pong and Prio2 messages (see C12/C19).',
+        'trusted': ['message-level harnesses use the identity instance of the Montgomery abstraction (harness/common.rs id_stub); the general abstraction is what C09 field*_bytes is proved against',
+                    'Field255 byte codec assumed (fiat-crypto)'],
+        'quick': {
+            'verus': [],
+            'kani': [{'files': KC + ['c09_field.rs', 'c07_codec.rs', 'c07_prio3.rs'],
+                      'harnesses': ['field32_bytes', 'field64_bytes', 'field128_bytes', 'ints_roundtrip', 'items_encode_roundtrip', 'u8_u16_u32_items_total',
+                                    'p3c_input_share_helper', 'p3c_public_share', 'p3c_verifier_share_msg', 'p3c_output_agg_share', 'prio3_bad_agg_id_decode']},
+                     {'files': KC + ['f255_util.rs', 'idpf_util.rs', 'c07_codec.rs', 'c07_poplar1.rs'],
+                      'harnesses': ['pop_agg_param_encoded_len', 'pop_sketch_state_tags']}],
+        },
+        'thorough': {
+            'kani': [{'files': KC + ['c07_codec.rs', 'c07_prio3.rs'], 'harnesses': ['p3c_input_share_leader', 'p3c_verify_state'], 'timeout': 1500},
+                     {'files': KC + ['f255_util.rs', 'idpf_util.rs', 'c07_codec.rs', 'c07_poplar1.rs'], 'harnesses': ['pop_verifier_msg_canon'], 'timeout': 900}],
+        },
+    },
+    'C08': {
+        'level': 'other',
+        'explanation': 'Decided: every Kani-generated no-panic/no-overflow/in-bounds obligation of the decoders listed, on arbitrary byte strings up to the stated size with header fields full-domain (length prefixes: every usize/u8/u16/u32 value); termination of decode_fixlen_items needs progress of the item decoder (known finding for zero-width items). Not decided: decoders that touch bitvec or Field255.',
+        'trusted': [],
+        'quick': {
+            'verus': [],
+            'kani': [{'files': KC + ['c09_field.rs', 'c07_codec.rs', 'c07_prio3.rs'],
+                      'harnesses': ['fixlen_items_total', 'u8_u16_u32_items_total', 'ints_roundtrip', 'fixlen_zero_width_item', 'field64_bytes',
+                                    'p3c_input_share_helper', 'p3c_verifier_share_msg', 'prio3_bad_agg_id_decode']},
+                     {'files': KC + ['f255_util.rs', 'idpf_util.rs', 'c07_codec.rs', 'c07_poplar1.rs'],
+                      'harnesses': ['pop_sketch_state_tags', 'pop_agg_param_encoded_len']}],
+        },
+        'thorough': {
+            'kani': [{'files': KC + ['c07_codec.rs', 'c07_prio3.rs'], 'harnesses': ['p3c_input_share_leader', 'p3c_verify_state'], 'timeout': 1500}],
+        },
+    },
 }
